@@ -1,9 +1,9 @@
 package main
 
 import (
-	"net"
 	"fmt"
 	"math"
+	"net"
 	"strings"
 	"time"
 
